@@ -26,6 +26,7 @@ structure Sent where
   sid : Nat
   pads : Bool         -- PADS
   ipcpAns : Bool      -- IPCP Configure-Ack, or Configure-Nak carrying an address
+  ack : Bool          -- IPCP Configure-Ack
   kind : String
   deriving DecidableEq, Repr
 
@@ -155,6 +156,18 @@ def v5c (o : Obs) : List Verdict :=
 
 def v5 (o : Obs) : List Verdict := v5a o ++ v5b o ++ v5c o
 
+/-- the server acknowledges an IP-Address option only for the address it assigned: a Configure-Request carrying an
+    address, from a session that holds none (pool exhausted), must not be answered with a Configure-Ack — the peer would
+    have picked its own address, possibly another session's -/
+def v6 (i : In) (o : Obs) : List Verdict :=
+  match i with
+  | .ipcp _ sid .creqIp =>
+    if o.sent.any (fun t => t.sid == sid && t.ack) && o.seen.any (fun x => x.sid == sid && !x.hasIp) then
+      [("self-chosen-address", "none",
+        s!"session {sid} holds no address, yet its IPCP Configure-Request with an IP-Address option was acknowledged")]
+    else []
+  | _ => []
+
 def monitorCore (mn : Mon) (i : In) (o : Obs) : Mon × List Verdict :=
   let owner := owner1 mn i o
   let auth := auth1 mn i o
@@ -163,7 +176,7 @@ def monitorCore (mn : Mon) (i : In) (o : Obs) : Mon × List Verdict :=
              authOK := auth.filter (fun sid => live.contains sid),
              prev := o.seen,
              stranded := mn.stranded + sweptNow mn o i },
-   v1 auth o ++ v2 auth o ++ v3 mn i o ++ v4 mn i o ++ v5 o)
+   v1 auth o ++ v2 auth o ++ v3 mn i o ++ v4 mn i o ++ v5 o ++ v6 i o)
 
 /-! ### the model's own observation, structured -/
 
@@ -185,13 +198,14 @@ def toSeen (x : Sess) : Seen :=
   { sid := x.id, mac := x.mac, est := decide (x.state = .est), hasIp := x.ip.isSome, addr := x.ip, raw := showSess x }
 
 def plainSent (sid : Nat) (kind : String) : Option Sent :=
-  some { sid := sid, pads := false, ipcpAns := false, kind := kind }
+  some { sid := sid, pads := false, ipcpAns := false, ack := false, kind := kind }
 
 def toSent : Out → Option Sent
   | .pado _ => none
-  | .pads sid _ => some { sid := sid, pads := true, ipcpAns := false, kind := "PADS" }
-  | .ipcpack sid _ => some { sid := sid, pads := false, ipcpAns := true, kind := "IPCPACK" }
-  | .ipcpnak (some ip) sid _ => some { sid := sid, pads := false, ipcpAns := true, kind := s!"IPCPNAK[{ip}]" }
+  | .pads sid _ => some { sid := sid, pads := true, ipcpAns := false, ack := false, kind := "PADS" }
+  | .ipcpack sid _ => some { sid := sid, pads := false, ipcpAns := true, ack := true, kind := "IPCPACK" }
+  | .ipcpnak (some ip) sid _ => some { sid := sid, pads := false, ipcpAns := true, ack := false, kind := s!"IPCPNAK[{ip}]" }
+  | .ipcprej sid _ => plainSent sid "IPCPREJ"
   | .ipcpnak none sid _ => plainSent sid "IPCPNAK"
   | .lcpreq sid _ => plainSent sid "LCPREQ"
   | .lcpack sid _ => plainSent sid "LCPACK"
